@@ -71,6 +71,16 @@ class VPreMatch(V):
         return self.none
 
 
+def _pm_truth(self, it):
+    ne = z3.Bool(fresh_name("pre_match_nonempty"))
+    n = z3.Const("n", VarName)
+    it.ctx.assume(Implies(Not(ne), ForAll([n], Not(Select(self.keys, n)))))
+    return And(Not(self.none), ne)
+
+
+VPreMatch.truth = _pm_truth
+
+
 class VPMItems(V):
     ty = None
 
@@ -238,6 +248,22 @@ class MatchDriver(FunctionContract):
             return VFunc("items", lambda ctx, it, a, k: VPMItems(o.keys))
         if isinstance(o, VEqns) and name == "append":
             return VFunc("append", lambda ctx, it, a, k: self.m_eq_append(ctx, obj, o, a))
+        if isinstance(o, VRecList) and name == "append" and isinstance(obj, VRef):
+            def app(ctx, it, a, k):
+                r = ctx.deref(a[0])
+                if not isinstance(r, VRecord):
+                    raise Unsupported("append(%r)" % (r,))
+                ctx.store(obj, VRecList(Store(o.t, r.r, True), ctx=ctx))
+                return NONE
+            return VFunc("append", app)
+        if isinstance(o, VFunc) and o.name == "unifier" and name == "unification_record_from_equation":
+            def one(ctx, it, a, k):
+                v = ctx.deref(a[0])
+                r = z3.Const(fresh_name("single_equation_record"), Rec)
+                if isinstance(v, VVarNode):
+                    ctx.assume(eq_names(r) == Store(z3.K(VarName, z3.BoolVal(False)), v.name, True))
+                return VRecord(r)
+            return VFunc(name, one)
         if isinstance(o, VRecord) and name == "equations":
             return VPy(("equations-of", o))
         if isinstance(o, (VPy, VStr)) and name == "format":
@@ -258,6 +284,10 @@ class MatchDriver(FunctionContract):
         return NONE
 
     def list_literal(self, ctx, it, e):
+        if not e.elts and self._targets().get((e.lineno, e.col_offset)) == "urecs":
+            # a list of records built one by one (not the shape of the current source: kept so that such a
+            # restructuring is decided, not just undecided)
+            return ctx.alloc(VRecList(z3.K(Rec, z3.BoolVal(False)), ctx=ctx))
         if not e.elts:
             return ctx.alloc(VEqns(z3.K(VarName, z3.BoolVal(False)), z3.BoolVal(True)))
         if len(e.elts) == 1:
@@ -268,6 +298,15 @@ class MatchDriver(FunctionContract):
 
     def dict_literal(self, ctx, it, e):
         return VPy("<a dict literal>")
+
+    def _targets(self):
+        if not hasattr(self, "_lt"):
+            self._lt = {}
+            for n in pyast.walk(self.load().node):
+                if isinstance(n, pyast.Assign) and isinstance(n.value, pyast.List) and len(n.targets) == 1 \
+                        and isinstance(n.targets[0], pyast.Name):
+                    self._lt[(n.value.lineno, n.value.col_offset)] = n.targets[0].id
+        return self._lt
 
     def m_urec(self, ctx, it, args, kw):
         eq = ctx.deref(args[0])
